@@ -2,4 +2,4 @@ From Coq Require Import Extraction ExtrOcamlBasic QArith.
 From BCT Require Import Model.Walks Model.Linear.
 Extraction Language OCaml.
 (* coqc runs with cwd = /verif/coq *)
-Extraction "../ocaml/gen/c18_model.ml" run_findwalks run_walkcount run_mfpt run_pagerank run_subgraph Qred Z.add.
+Extraction "../ocaml/gen/c18_model.ml" run_findwalks run_findwalks_x run_walkcount run_mfpt run_mfpt_c run_mfpt_select run_pagerank_c run_subgraph Qred Z.add.
